@@ -11,6 +11,7 @@
 //   s <op...>            set-up operation, executed sequentially before the threads start
 //   a <op...>            the observed operation of thread A
 //   b <op...>            the operation of thread B
+//   p <op...>            operation executed after both threads have finished (reported as thread 2)
 //   run <kfrom> <kto>    kto = 0: up to the number of releases A's operation makes; kto < 0: only kfrom (k = 0: B runs after A)
 // ops:  put d k v | get d k | del d k | scan d | cset d k v | cdel d k | setmeta d v | getmeta d | dbcreate d | dbdestroy d
 //       | sync | checkpoint | backup | grow d k   (put of a value at least as long as the file, so that the file must grow)
@@ -20,6 +21,7 @@
 //   EV <events of A>        a<class><r|w> = acquire, r<class> = release, e.g. astorer adbw aexfr rexf ...
 //   <tid> <inv> <res> <kind> <db> <key> <value> <answer>     (tid 0 = A, 1 = B)
 //   FINAL <d> <dump>   (d = 3+i: metadata of database i)   REOPEN <d> <dump>   BACKUP <d> <dump>
+//   ALLOC <n>          allocated data blocks of the file after the run
 //   MAPDIFF <n> <first> <last> <bytes before> <bytes after>   WAL mode: n bytes of the mapping at rest are not what the
 //                      file plus the log hold (they change when a checkpoint replaces the mapping)
 //   END <k>
@@ -159,8 +161,8 @@ int pthread_cond_wait(pthread_cond_t *c, pthread_mutex_t *m) {
 #define NDBS 3
 #define MAXS 1024
 struct opr { char kind[12]; int db; uint8_t *k; size_t kl; uint8_t *v; size_t vl; long inv, res; char *ans; char *venc; };
-static struct opr sops[MAXS], aop, bop;
-static int nsops, have_b;
+static struct opr sops[MAXS], pops[MAXS], aop, bop;
+static int nsops, npops, have_b;
 static IWKV kv;
 static IWDB dbs[NDBS];
 static char path[1024], bkpath[1100];
@@ -438,7 +440,15 @@ static int one_run(int k) {
   printf("\n");
   print_call(0, &aop);
   if (have_b) print_call(1, &bop);
+  for (int i = 0; i < npops; ++i) { free(pops[i].ans); pops[i].ans = 0; do_op(&pops[i]); print_call(2, &pops[i]); }
   dump_all("FINAL");
+  { // allocated blocks of the file (space accounting: a page that no operation can reach any more stays counted)
+    IWFS_FSM_STATE s2; long na = 0;
+    iwkv_state(kv, &s2);
+    off_t bs = (off_t) s2.block_size;
+    for (off_t a = 0; bs > 0 && a + bs <= s2.exfile.fsize; a += bs) if (!kv->fsm.check_allocation_status(&kv->fsm, a, bs, true)) ++na;
+    printf("ALLOC %ld\n", na);
+  }
   map_check(k);
   iwrc rc = iwkv_close(&kv);
   if (rc) printf("CLOSEERR %d\n", k);
@@ -476,6 +486,7 @@ int main(void) {
     } else if (!strcmp(tv[0], "s") && nsops < MAXS) parse_op(&sops[nsops++], tv + 1, n - 1);
     else if (!strcmp(tv[0], "a")) parse_op(&aop, tv + 1, n - 1);
     else if (!strcmp(tv[0], "b")) { parse_op(&bop, tv + 1, n - 1); have_b = 1; }
+    else if (!strcmp(tv[0], "p") && npops < MAXS) parse_op(&pops[npops++], tv + 1, n - 1);
     else if (!strcmp(tv[0], "run")) {
       int kfrom = atoi(tv[1]), kto = n > 2 ? atoi(tv[2]) : 0;
       for (int k = kfrom;; ++k) {           // kto < 0: only kfrom
